@@ -182,6 +182,8 @@ func (r *Run) report(updateLock, verbose, noEvidence bool) int {
 		}
 		dup[o.Name] = true
 	}
+	exits, deadExits := map[string]int{}, map[string]int{}
+	var deadNames []string
 	names := map[string]bool{}
 	for _, o := range e.obls {
 		names[lockStem(o.Name)] = true
@@ -191,6 +193,14 @@ func (r *Run) report(updateLock, verbose, noEvidence bool) int {
 		solverSecs += o.Secs
 		if o.Cover {
 			// cover: hypotheses must be satisfiable
+			if o.Kind == "cover-exit" {
+				exits[o.Func]++
+				if o.Verdict == "unsat" {
+					deadExits[o.Func]++
+					deadNames = append(deadNames, o.Name)
+				}
+				continue
+			}
 			if o.Verdict == "unsat" {
 				failures = append(failures, &Failure{Name: o.Name, Reason: "vacuous: the assumed preconditions / invariants are contradictory", Obl: o})
 			}
@@ -209,7 +219,25 @@ func (r *Run) report(updateLock, verbose, noEvidence bool) int {
 		}
 		failures = append(failures, &Failure{Name: o.Name, Reason: "obligation not discharged: " + o.Verdict + " — " + o.Note, Obl: o})
 	}
+	for fn, n := range exits {
+		if deadExits[fn] == n {
+			failures = append(failures, &Failure{Name: fn + "#cover.exit", Reason: "vacuous: no exit of the function is reachable under the assumed contracts (contradictory assumptions)"})
+		}
+	}
+	sort.Strings(deadNames)
+	r.extraCov["unreachable_exits"] = deadNames
 	lockPath := filepath.Join(r.verif, "obligations.lock.json")
+	if !updateLock {
+		knownDead := map[string]bool{}
+		for _, n := range loadLock(lockPath)[r.cfg.ID+"#dead-exits"] {
+			knownDead[n] = true
+		}
+		for _, n := range deadNames {
+			if !knownDead[lockStem(n)] && !knownDead[n] {
+				failures = append(failures, &Failure{Name: n, Reason: "vacuity guard: this function exit is unreachable under the assumed contracts although it was reachable on the reference tree (contradictory assumptions would make every obligation behind it pass)"})
+			}
+		}
+	}
 	lock := loadLock(lockPath)
 	if total == 0 {
 		failures = append(failures, &Failure{Name: "vacuity", Reason: "no obligations were generated"})
@@ -248,6 +276,7 @@ func (r *Run) report(updateLock, verbose, noEvidence bool) int {
 		}
 		sort.Strings(ns)
 		lock[r.cfg.ID] = ns
+		lock[r.cfg.ID+"#dead-exits"] = deadNames
 		data, _ := json.MarshalIndent(lock, "", " ")
 		os.WriteFile(lockPath, append(data, '\n'), 0o644)
 		fmt.Printf("lock updated: %d names for %s\n", len(ns), r.cfg.ID)
